@@ -5,4 +5,4 @@ Extraction Language OCaml.
 Set Extraction Optimize.
 Extraction "model_trender.ml"
   N.add N.mul N.sub N.div_eucl N.compare Z.add Z.mul Z.sub Z.div_eucl Z.compare Z.of_N Z.to_N Z.opp
-  TrenderInst.render_jv EscapeModel.auto_of.
+  TrenderInst.render_jv EscapeModel.auto_of TmplModel.jv_of_numeral.
